@@ -487,6 +487,9 @@ func trimStack(s string) string {
 	return strings.Join(lines, "\n")
 }
 
+// Tick tells the hang watchdog that a long execution is making progress.
+func (r *Run) Tick() { r.progress.Add(1) }
+
 // Begin marks the start of an owned execution (crash attribution + hang watchdog).
 func (r *Run) Begin(x *explore.X) {
 	r.cur = x
